@@ -422,6 +422,7 @@ func runC12(c *Ctx) {
 	clauseURLInstalledOnSuccess(c, "C12.i")
 	clauseCloneNotClosed(c, "C12.j")
 	clauseLayerClosedOnlyByOwner(c, "C12.k")
+	clauseGivenUpResultIsReleased(c, "C12.l")
 
 	// ---------- C12.b ----------
 	c.clause("C12.b", "T2", "resources acquired during Resolve/resolveBlob are released on every later error exit (deferred, guarded by the named error result)", 3)
